@@ -8,7 +8,6 @@ import (
 	"os/exec"
 	"path/filepath"
 	"strings"
-	"sync"
 	"time"
 )
 
@@ -75,49 +74,61 @@ func solve(dir, name, script string, timeoutS int) SolveResult {
 	os.WriteFile(path, []byte(script), 0o644)
 	ctx, cancel := context.WithTimeout(context.Background(), time.Duration(timeoutS+2)*time.Second)
 	defer cancel()
-	type r struct {
-		SolveResult
-	}
 	ch := make(chan SolveResult, len(solvers))
-	var wg sync.WaitGroup
-	for _, s := range solvers {
-		wg.Add(1)
-		go func(s []string) {
-			defer wg.Done()
-			args := []string{}
-			for _, a := range s[1:] {
-				if strings.Contains(a, "%d") {
-					a = fmt.Sprintf(a, timeoutS)
-				}
-				args = append(args, a)
+	run := func(s []string) {
+		args := []string{}
+		for _, a := range s[1:] {
+			if strings.Contains(a, "%d") {
+				a = fmt.Sprintf(a, timeoutS)
 			}
-			args = append(args, path)
-			t0 := time.Now()
-			cmd := exec.CommandContext(ctx, s[0], args...)
-			var out bytes.Buffer
-			cmd.Stdout = &out
-			cmd.Stderr = &out
-			cmd.Run()
-			first := strings.TrimSpace(strings.SplitN(out.String(), "\n", 2)[0])
-			st := "unknown"
-			if first == "unsat" || first == "sat" {
-				st = first
-			}
-			if strings.HasPrefix(first, "(error") && !strings.Contains(first, "model is not available") {
-				st = "error" // malformed script: an engine defect, never a verdict
-			}
-			ch <- SolveResult{Status: st, Backend: s[0], Ms: time.Since(t0).Milliseconds(), Model: out.String()}
-		}(s)
-	}
-	go func() { wg.Wait(); close(ch) }()
-	best := SolveResult{Status: "unknown"}
-	for res := range ch {
-		if res.Status == "unsat" || res.Status == "sat" {
-			cancel()
-			return res
+			args = append(args, a)
 		}
-		if best.Status != "error" {
-			best = res
+		args = append(args, path)
+		t0 := time.Now()
+		cmd := exec.CommandContext(ctx, s[0], args...)
+		var out bytes.Buffer
+		cmd.Stdout = &out
+		cmd.Stderr = &out
+		cmd.Run()
+		first := strings.TrimSpace(strings.SplitN(out.String(), "\n", 2)[0])
+		st := "unknown"
+		if first == "unsat" || first == "sat" {
+			st = first
+		}
+		if strings.HasPrefix(first, "(error") && !strings.Contains(first, "model is not available") {
+			st = "error" // malformed script: an engine defect, never a verdict
+		}
+		ch <- SolveResult{Status: st, Backend: s[0], Ms: time.Since(t0).Milliseconds(), Model: out.String()}
+	}
+	// portfolio: z3 5.1 first; the other back ends join the race if it has not answered quickly
+	go run(solvers[0])
+	started, done := 1, 0
+	best := SolveResult{Status: "unknown"}
+	timer := time.NewTimer(1200 * time.Millisecond)
+	defer timer.Stop()
+	for done < started {
+		select {
+		case res := <-ch:
+			done++
+			if res.Status == "unsat" || res.Status == "sat" {
+				return res
+			}
+			if best.Status != "error" {
+				best = res
+			}
+			if started == 1 {
+				for _, s := range solvers[1:] {
+					go run(s)
+					started++
+				}
+			}
+		case <-timer.C:
+			if started == 1 {
+				for _, s := range solvers[1:] {
+					go run(s)
+					started++
+				}
+			}
 		}
 	}
 	return best
